@@ -389,6 +389,13 @@ pub fn crafted() -> Vec<Vec<u8>> {
         b"com.example.Main -> m:\n# {\"id\":\"sourceFile\",\"fileName\":\"Main.kt\"}\n    1:5:void first():10:14 -> a\n# {\"id\":\"sourceFile\",\"fileName\":\"R8$$SyntheticClass\"}\n    6:9:void second():20:23 -> b\n    void third() -> c\n",
         // a class that is also a package of classes (P$x next to P.y), asked for through descriptors
         b"com.example.ui.Widget -> a.b:\ncom.example.ui.Widget$State -> a.b$d:\ncom.example.ui.Widget$Kind -> a.b$c:\ncom.example.ui.pkg.E -> a.b.e:\ncom.example.ui.pkg.F -> a.b.f:\ncom.example.ui.A -> a:\n    void a() -> m\n    void b() -> m\n",
+        // comment lines inside a block: an INDENTED '#' line is not a header (it is unparseable and changes nothing), and
+        // a JSON comment at column 0 between two entries sharing a range is a record like any other (it ends the group)
+        b"com.example.C -> a.b:\n    1:3:void first():10:12 -> m\n      # {\"id\":\"sourceFile\",\"fileName\":\"Elsewhere.kt\"}\n    4:6:void second():30:32 -> m\n    7:7:void render(int):40:40 -> n\n# {\"id\":\"com.android.tools.r8.synthesized\"}\n    7:7:void dispatch(int):50:50 -> n\n    8:8:void x():1:1 -> o\n      # {\"id\":\"com.android.tools.r8.synthesized\"}\n    8:8:void y():2:2 -> o\n",
+        // obfuscated class names that UTF-8 byte order and UTF-16 code unit order sort differently
+        "com.example.Wide -> a.\u{ff21}:\n    void m() -> x\ncom.example.Astral -> a.\u{1f600}:\n    void m() -> y\ncom.example.Pua -> a.\u{e000}:\ncom.example.Plain -> a.z:\n".as_bytes(),
+        // an odd number of classes and no member at all
+        b"k.A -> a:\nk.B -> b:\nk.C -> c:\n",
         // an empty obfuscated method name, in the middle of a class (legal for the parser)
         b"com.example.Worker -> a.b:\n    1:2:void first():5:6 -> \n    void second() -> \n    3:4:void run():41:42 -> a\n    int f -> b\n",
     ];
@@ -415,6 +422,22 @@ pub fn crafted() -> Vec<Vec<u8>> {
     }
     out.push(lens.into_bytes());
     out
+}
+
+/// every class block declared twice: the first declarations carry kilobytes of strings nobody refers to once the
+/// later, small blocks have replaced them (whatever a writer does with dead strings must not show in the bytes)
+pub fn mapping_shadowed() -> Vec<u8> {
+    let mut out = String::new();
+    for k in 0..60 {
+        out.push_str(&format!("old.pkg.OldClassWithAVeryLongNameNumber{k:03} -> o.c{k:02}:\n"));
+        for j in 0..3 {
+            out.push_str(&format!("    {}:{}:void oldMethodWithALongAndUniqueName{k:03}x{j}(old.pkg.Param{k}x{j}):{}:{} -> m{j}\n", 10 * j + 1, 10 * j + 5, 100 + j, 104 + j));
+        }
+    }
+    for k in (0..60).rev() {
+        out.push_str(&format!("n.N{k} -> o.c{k:02}:\n    void a() -> b\n"));
+    }
+    out.into_bytes()
 }
 
 /// stack-trace texts around the fixed prefixes the remappers look for: cut off behind them, followed by a wide
